@@ -33,7 +33,7 @@ RULE = ("cases = generated 20-field particle lists (stratified over id patterns,
         "distinguishable from the row number); distinct by digest of (N, class, route, flags, ids head, first row)")
 ASSUMPTIONS = ["documented renaming: score, subtomo_id->subtomo_num, tomo_id->tomo_num, object_id->object, x/y/z->orig_x/y/z, "
                "shift_x/y/z->x/y/z_shift, phi, psi, theta->the, class",
-               "STAR precision: |file - value| <= 0.5e-6 + 1e-12*|value|; generated magnitudes < 1e7",
+               "STAR precision: |file - value| <= 0.5e-6 + 1e-12*|value|; generated field magnitudes < 1e6, subtomogram numbers are positive integers < 2**31 (duplicates allowed)",
                "subtomogram numbers are integral (parity is only defined for integers); field values finite (no NaN)",
                "particle order = positional row order of the table, whatever its row index",
                "after update_coord the comparison is on complete positions (x+shift), integral orig_*, |shift| <= 0.5; "
@@ -50,9 +50,9 @@ ROUTES = ["StopgapMotl(df).write_out", "StopgapMotl(StopgapMotl).write_out", "Mo
 def plan(tier):
     if tier == "quick":
         return dict(n_cases=len(CLASSES) * 4 * 7, shards=2, classes=CLASSES, timeout_s=600,
-                    min_evals={"sg_export": 800, "sg_import": 800, "write_out_file": 400, "star_fields": 400,
-                               "star_halfset_idx": 400, "update_coord": 300, "star_reload": 700, "inmem_roundtrip": 350,
-                               "converters": 150})
+                    min_evals={"sg_export": 800, "sg_import": 1300, "write_out_file": 450, "star_fields": 450,
+                               "star_halfset_idx": 450, "update_coord": 700, "star_reload": 900, "inmem_roundtrip": 350,
+                               "converters": 550})
     return dict(n_cases=len(CLASSES) * 4 * 120, shards=16, classes=CLASSES, timeout_s=3000,
                 min_evals={"sg_export": 14000, "sg_import": 25000, "write_out_file": 7500, "star_fields": 7500,
                            "star_halfset_idx": 7500, "update_coord": 12000, "star_reload": 16000, "inmem_roundtrip": 6500,
@@ -191,7 +191,7 @@ def _ids(rng, n, style):
     if style == "sparse":
         return sparse
     if style == "large":
-        return sparse + int(rng.integers(10 ** 5, 9 * 10 ** 6))
+        return sparse + int(rng.choice([rng.integers(10 ** 5, 9 * 10 ** 6), rng.integers(2 ** 24, 2 * 10 ** 9)]))
     if style == "descending":
         return np.sort(sparse)[::-1]
     if style == "even":
